@@ -270,7 +270,7 @@ ATTRIBUTE = ["attribute", None, {}, [["attributeName", "a", {}, []], ["attribute
                                          ["textDomain", None, {}, [["definition", "any", {}, []]]]]]]]]]]]
 
 
-def datatable(desc="text", phys=True, nrec="present", **pk):
+def datatable(desc="text", phys=True, nrec="present", own_methods=False, own_coverage=False, **pk):
     k = [["entityName", "T", {}, []]]
     if desc == "text":
         k.append(["entityDescription", "the table", {}, []])
@@ -278,6 +278,10 @@ def datatable(desc="text", phys=True, nrec="present", **pk):
         k.append(["entityDescription", "", {}, []])
     if phys:
         k.append(physical(**pk))
+    if own_coverage:
+        k.append(["coverage", None, {}, [["temporalCoverage", None, {}, [["singleDateTime", None, {}, [["calendarDate", "2001", {}, []]]]]]]])
+    if own_methods:
+        k.append(["methods", None, {}, [["methodStep", None, {}, [["description", "entity level", {}, []]]]]])
     k.append(["attributeList", None, {}, [e3._clone(ATTRIBUTE)]])
     if nrec == "present":
         k.append(["numberOfRecords", "3", {}, []])
@@ -317,6 +321,7 @@ DEFAULT = dict(
     abstract=("own", 20), coverage=True, datatable=True, rights="own", methods=True, project=True, keywords=(5,),
     creator=dict(), contact=dict(), metadataProvider=None, associatedParty=None, personnel=dict(),
     dt=dict(), other=None, method_desc="own", maint_desc=None, qc_desc=None, extent_desc=None,
+    project_abstract=False, related_project=False,
 )
 
 
@@ -356,8 +361,12 @@ def build(p):
             ms.append(["qualityControl", None, {}, [description(q["qc_desc"])]])
         ds.append(["methods", None, {}, ms])
     if q["project"]:
-        ds.append(["project", None, {}, [["title", W_(q["project_title_words"]), {}, []],
-                                         party("personnel", role=True, **q["personnel"])]])
+        pk = [["title", W_(q["project_title_words"]), {}, []], party("personnel", role=True, **q["personnel"])]
+        if q["project_abstract"]:
+            pk.append(["abstract", W_(25), {}, []])
+        if q["related_project"]:
+            pk.append(["relatedProject", None, {}, [["title", "rel", {}, []], party("personnel", role=True)]])
+        ds.append(["project", None, {}, pk])
     if q["datatable"]:
         ds.append(datatable(**q["dt"]))
     if q["other"] is not None:
@@ -420,6 +429,7 @@ def single_knob_deviations():
         devs.append(dict(dt=o))
     for o in ("text", "empty", "absent"):
         devs.append(dict(other=o))
+    devs += [dict(project_abstract=True), dict(related_project=True)]
     for k in ("method_desc", "maint_desc", "qc_desc", "extent_desc"):
         for f in ("own", "para", "markdown", "empty", "emptystr", "inline"):
             devs.append({k: f})
@@ -454,6 +464,18 @@ def check(spec, case, want_valid=None, acc=None):
         return probs
     if warnings[0] is not sentinel:
         bad("earlier_entries_disturbed", "prefix kept", repr(warnings[0])[:100])
+    # evaluating the same tree again into the same list appends the same findings again (earlier entries, including
+    # identical ones, are not consulted)
+    n_first = len(warnings)
+    try:
+        evaluate.tree(root, warnings)
+    except Exception as e:  # noqa
+        bad("evaluate_raised", "no exception", repr(e), call="tree (second time)", exc=type(e).__name__)
+        return probs
+    if warnings[:n_first] != warnings[:n_first] or len(warnings) != 2 * n_first - 1 or \
+            [(w[0], id(w[2])) for w in warnings[n_first:]] != [(w[0], id(w[2])) for w in warnings[1:n_first]]:
+        bad("second_evaluation_differs", {"appended_first_time": n_first - 1}, {"appended_second_time": len(warnings) - n_first})
+    warnings = warnings[:n_first]
     got = []
     for w in warnings[1:]:
         ok = (isinstance(w, tuple) and len(w) == 3 and isinstance(w[0], EvaluationWarning) and isinstance(w[1], str)
@@ -551,6 +573,16 @@ def all_params(tier):
     for k in ("method_desc", "maint_desc", "qc_desc", "extent_desc"):
         for f in ("own", "para", "markdown", "empty", "emptystr", "inline"):
             out.append({k: f})
+    # look-alikes at another level must not stand in for the dataset-level element
+    for dtk in (dict(own_methods=True), dict(own_coverage=True), dict(own_methods=True, own_coverage=True)):
+        for meth in (True, False):
+            for cov in (True, False):
+                out.append(dict(dt=dtk, methods=meth, coverage=cov))
+    for pa in (True, False):
+        for rp in (True, False):
+            for ab in (("absent", 0), ("own", 20), ("own", 19)):
+                for proj in (True, False):
+                    out.append(dict(project_abstract=pa, related_project=rp, abstract=ab, project=proj))
     devs = single_knob_deviations()
     for a, b in itertools.combinations(devs, 2):
         if set(a) & set(b):
